@@ -38,8 +38,8 @@ CLASSES = ["FDD", "EFDD", "FSDD", "SSIcov_mm", "SSIcov_R", "SSIdat", "pLSCF_per"
 # ---------------------------------------------------------------------------
 # running one algorithm
 # ---------------------------------------------------------------------------
-def _run(ck, data, fs, par, refs, sel, DFk=1.0):
-    """-> dict of tables or Raised"""
+def _run(ck, data, fs, par, refs, sel, DFk=1.0, reuse=None):
+    """-> dict of tables or Raised; reuse = an algorithm object that already ran on another setup"""
     ms = ck.endswith("_MS")
     if ms:
         datasets, refl = data
@@ -64,12 +64,14 @@ def _run(ck, data, fs, par, refs, sel, DFk=1.0):
         if refs is not None and not ms:
             kw["ref_ind"] = list(refs)
         alg = cls(**kw)
+    if reuse is not None:
+        alg = reuse
     setup.add_algorithms(alg)
     r = sut(setup.run_by_name, "a")
     if raised(r):
         return r
     res = alg.result
-    out = {}
+    out = {"_alg": alg}
     df = fs / par["nxseg"]
     if base in ("FDD", "EFDD", "FSDD"):
         out["freq"] = np.asarray(res.freq)
@@ -292,6 +294,7 @@ def judge_meta(case):
     if ms:
         judge("gain", _run(ck, ([d * g for d in datasets], refl), fs, par, refs, sel))
         judge("time-unit", _run(ck, (datasets, refl), fs * kk, par, refs, [f * kk for f in sel]), kf=kk)
+        judge("time-unit-reused-object", _run(ck, (datasets, refl), fs * kk, par, refs, [f * kk for f in sel], reuse=T0["_alg"]), kf=kk)
         # permutation inside every dataset, references mapped; expected row map over [refs; roving per setup]
         nd, nr, rows0, rows1 = [], [], [], []
         kref = len(refl[0])
@@ -327,6 +330,8 @@ def judge_meta(case):
                 Qg = modal.random_orthogonal(len(grp), case["perm_seed"] + len(grp))
                 Q[np.ix_(grp, grp)] = Qg
     judge("mixing", _run(ck, data @ Q.T, fs, par, refs, sel), Q=Q)
+    # last (it replaces the base object's result): the algorithm object of the base run attached to a setup declaring k*fs
+    judge("time-unit-reused-object", _run(ck, data, fs * kk, par, refs, [f * kk for f in sel], reuse=T0["_alg"]), kf=kk)
     return j
 
 
